@@ -100,13 +100,13 @@ func (w *bcWorld) wrap(actor string, body func(bcast func(), getWaitCh func() <-
 
 func runC03(w *mon.Worker) {
 	mon.SetMaxSleep(150 * time.Microsecond)
-	for i := 0; i < w.Share(w.Scale(20000, 2000000)); i++ {
+	for i := 0; i < w.Share(w.Scale(20000, 6000000)); i++ {
 		mon.SetProb(0.25, verifhook.BcastEnter, verifhook.BcastExit, verifhook.BcastWaitBlock)
 		mon.SetProb(0.05, verifhook.BcastLocked)
 		w.Case("random", nil, bcastRandomCase)
 	}
 	mon.ClearProb()
-	for i := 0; i < w.Share(w.Scale(2000, 200000)); i++ {
+	for i := 0; i < w.Share(w.Scale(2000, 600000)); i++ {
 		w.Case("gated", nil, bcastGatedCase)
 	}
 }
